@@ -32,6 +32,11 @@ QUERIES.append(Query("ctx_lifecycle", S, "harness_lifecycle", defs=["C20_LIFE"],
                      bounds="one sequence create -> prealloc create -> randomize -> clone -> prealloc clone -> reset -> destroy; any seed"))
 
 
+QUERIES.append(Query("set_compression", S, "harness_set_compression", defs=["C20_SETSHA"], unwind=140, timeout=900, mem_gb=6,
+                     desc="context_set_sha256_compression: installed only after the self test accepts the candidate, refused (illegal callback, context unchanged) otherwise and on static-context copies, NULL resets to the built-in function, nothing else in the context changes",
+                     bounds="self-test verdict arbitrary"))
+
+
 def _statics(q, res):
     """side condition (symbol table, not a solver query): mutable static-lifetime objects of the library TU"""
     wd = os.path.join(os.environ.get("VERIF_SCRATCH", "/tmp"), "verif-statics-%d" % os.getpid())
@@ -101,5 +106,5 @@ ASSUMPTIONS = ["multiplicative kernels and SHA-256 compression are uninterpreted
                "ecdsa_sign: first RFC 6979 attempt only", "objects hold canonical coordinates", "64-bit limbs only; malloc count / create-clone-destroy sequences are covered by the ctx_lifecycle query only as far as listed there"]
 MANIFEST_ENTRY = {
     "text": "2-safety bounded model checking of the real code (CBMC): ECDSA/Schnorr sign+verify, key generation, tweaks, ECDH, DER/pubkey codecs, Pedersen commit and MuSig partial_sign are each executed twice on the same arguments under two independent ARBITRARY contexts (blinding state, callback data, declassify flag, replaced-but-correct compression function) with goto-instrument --nondet-static making every mutable static start arbitrary: outputs/return values/callback counts equal, contexts unchanged; static-context behaviour; inductive step for the blinding invariant of ecmult_gen_blind for all states and seeds.",
-    "note": "Thread interleavings are not explored (tool refuses; replaced by the sufficient condition: read-only contexts + no mutable statics + output-only writes). gn*G independent of the blinding state is assumed in the 2-run queries and justified by blind_step + the group law (C05, not encodable). set_sha256_compression is not covered by a solver query; the create/clone/randomize/destroy query covers one representative sequence. First RFC 6979 attempt only.",
+    "note": "Thread interleavings are not explored (tool refuses; replaced by the sufficient condition: read-only contexts + no mutable statics + output-only writes). gn*G independent of the blinding state is assumed in the 2-run queries and justified by blind_step + the group law (C05, not encodable). the create/clone/randomize/destroy query covers one representative sequence. First RFC 6979 attempt only.",
 }
